@@ -357,6 +357,7 @@ func GenSingle(t *rapid.T, op string, cfg SingleCfg) Program {
 	}
 	n.Twice = rapid.IntRange(0, 5).Draw(t, "twice") == 0
 	s.p.Nodes = []Node{n}
+	s.p.Disturb = rapid.IntRange(0, 3).Draw(t, "disturb") == 0
 	return s.p
 }
 
